@@ -1,7 +1,6 @@
 package props
 
 import (
-	"bytes"
 	"encoding/json"
 	"fmt"
 	"io"
@@ -60,6 +59,11 @@ func (n *c13Node) clone() *c13Node {
 	return &m
 }
 
+var (
+	near32Real *lz4.VerifXXH
+	near32Ref  *ref.XXH
+)
+
 func c13Start(start string) *c13Node {
 	n := &c13Node{}
 	n.ref.Reset()
@@ -70,15 +74,28 @@ func c13Start(start string) *c13Node {
 		n.real.Reset()
 		n.cat = []byte{}
 	case "near32":
-		// lanes after hashing 64 pattern bytes; total forced to 2^32-64
-		seedData := make([]byte, 64)
-		for i := range seedData {
-			seedData[i] = c13Byte("lcg", uint64(i))
+		// a real stream of 2^32-64 bytes (no dependence on the hasher's private layout), hashed
+		// once per worker process and copied for every history
+		if near32Real == nil {
+			chunk := make([]byte, 1<<20)
+			for i := range chunk {
+				chunk[i] = c13Byte("lcg", uint64(i))
+			}
+			var r lz4.VerifXXH
+			r.Reset()
+			f := ref.NewXXH()
+			for i := 0; i < 4095; i++ {
+				r.Write(chunk)
+				f.WriteStripes(chunk)
+			}
+			r.Write(chunk[:1<<20-64])
+			f.WriteStripes(chunk[:1<<20-64])
+			near32Real, near32Ref = &r, f
 		}
-		n.ref.Write(seedData)
-		n.ref.Total = 1<<32 - 64
-		n.real.VerifSetState(n.ref.Acc, n.ref.Total, nil)
-		n.pos = 64
+		n.real = *near32Real
+		n.ref = *near32Ref
+		n.ref.Tail = append([]byte(nil), near32Ref.Tail...)
+		n.pos = 1<<32 - 64
 		n.inj = true
 	}
 	return n
@@ -110,10 +127,9 @@ func (n *c13Node) apply(op c13Op, pattern string) string {
 	case "sum":
 	}
 	// oracle at every node
-	v0, t0, b0 := n.real.VerifState()
+	before := n.real // the hasher is a plain value: compare copies
 	got := n.real.Sum32()
-	v1, t1, b1 := n.real.VerifState()
-	if v0 != v1 || t0 != t1 || !bytes.Equal(b0, b1) {
+	if lz4.VerifDump(&before) != lz4.VerifDump(&n.real) {
 		return "Sum32 changes the hasher state"
 	}
 	want := n.ref.Sum32()
@@ -326,12 +342,12 @@ func init() {
 							if a.Op != "sum" {
 								c.Distinct(1)
 							}
-							_, t, b := m.real.VerifState()
+							t := m.ref.Total
 							cls := t
 							if t > 64 && t < 1<<32-64 {
 								cls = 64
 							}
-							states[fmt.Sprintf("%d/%d", len(b), cls)] = true
+							states[fmt.Sprintf("%d/%d", len(m.ref.Tail), cls)] = true
 							if sig != "" {
 								k := c13Case{Kind: "hist", Start: start, Pattern: pattern, Ops: nops}
 								c.Confirm(&ev.Finding{Sig: sig, What: fmt.Sprintf("history %v from %s", nops, start), Case: k},
